@@ -60,3 +60,27 @@ VARIANTS += [
  V("c19-w1-synced-offset-unconditional", "C19", "C19.W1", "record/log_writer.go",
    "		if synced {\n			// NB: syncedOffset must be advanced", "		if synced || err == nil {\n			// NB: syncedOffset must be advanced"),
 ]
+
+VARIANTS += [
+ V("c40-o1-store-before-marker", "C40", "C40.O1", "format_major_version.go",
+   "	if err := d.writeFormatVersionMarker(formatVers); err != nil {\n		return err\n	}\n	d.mu.formatVers.vers.Store(uint64(formatVers))",
+   "	d.mu.formatVers.vers.Store(uint64(formatVers))\n	if err := d.writeFormatVersionMarker(formatVers); err != nil {\n		return err\n	}"),
+ V("c40-t1-wrong-version-finalized", "C40", "C40.T1", "format_major_version.go",
+   "		return d.finalizeFormatVersUpgrade(FormatWALSyncChunks)", "		return d.finalizeFormatVersUpgrade(FormatColumnarBlocks)"),
+ V("c40-t1-migration-error-ignored", "C40", "C40.T1", "format_major_version.go",
+   "		if err := d.compactMarkedFilesLocked(); err != nil {\n			return err\n		}\n		return d.finalizeFormatVersUpgrade(FormatPrePebblev1MarkedCompacted)",
+   "		_ = d.compactMarkedFilesLocked()\n		return d.finalizeFormatVersUpgrade(FormatPrePebblev1MarkedCompacted)"),
+ V("c40-o2-allow-downgrade", "C40", "C40.O2", "format_major_version.go",
+   "	if currentVers := d.FormatMajorVersion(); currentVers > formatVers {", "	if currentVers := d.FormatMajorVersion(); currentVers > formatVers && d.opts.ReadOnly {"),
+ V("c06-o1a-publish-on-apply-error", "C06", "C06.O1a", "commit.go",
+   "		// removing the batch from the pending queue.\n		return err\n	}\n\n	// Publish the batch sequence number.\n	p.publish(b)",
+   "		// removing the batch from the pending queue.\n		p.publish(b)\n		return err\n	}\n\n	// Publish the batch sequence number.\n	p.publish(b)"),
+ V("c06-o2-seqnum-after-queue", "C06", "C06.O2", "db.go",
+   "		b.flushable.setSeqNum(b.SeqNum())\n		if !d.opts.DisableWAL {", "		if !d.opts.DisableWAL {"),
+ V("c06-w1-store-visible", "C06", "C06.W1", "commit.go",
+   "			if p.env.visibleSeqNum.CompareAndSwap(curSeqNum, newSeqNum) {\n				// We successfully published t's sequence number.\n				break\n			}", "			p.env.visibleSeqNum.Store(newSeqNum)\n			break"),
+ V("c07-o1-ratchet-removed", "C07", "C07.O1", "commit.go",
+   "			if newSeqNum <= curSeqNum {", "			if newSeqNum == curSeqNum {"),
+ V("c07-r1-write-outside-mutex", "C07", "C07.R1", "commit.go",
+   "	mem, err := p.env.write(b, syncWG, syncErr)\n\n	p.mu.Unlock()", "	p.mu.Unlock()\n\n	mem, err := p.env.write(b, syncWG, syncErr)"),
+]
